@@ -74,6 +74,27 @@ class Module:
     def functions(self):
         return [n for n in self.tree.body if isinstance(n, ast.FunctionDef)]
 
+    def scope(self, fn):
+        """fn plus the module-level functions it (transitively) calls by
+        name that do NOT exist in the reference tree (new helpers the
+        normal form could not inline, e.g. mutually recursive ones): for a
+        rule that reads constants / calls off `fn` they are part of it."""
+        from .normal import known
+        ref = known().get(self.rel)
+        if ref is None:
+            return [fn]
+        byname = {f.name: f for f in self.functions()}
+        out, todo = [fn], [fn]
+        while todo:
+            f = todo.pop()
+            for n in ast.walk(f):
+                if isinstance(n, ast.Call) and isinstance(n.func, ast.Name) \
+                        and n.func.id in byname and n.func.id not in ref \
+                        and byname[n.func.id] not in out:
+                    out.append(byname[n.func.id])
+                    todo.append(byname[n.func.id])
+        return out
+
     def classes(self):
         return [n for n in self.tree.body if isinstance(n, ast.ClassDef)]
 
